@@ -48,11 +48,13 @@ class Trig:
 
     def _lookup(self, x):
         x = Sym.lift(x)
+        if x.is_zero():
+            return ("exact", Sym(Fraction(0)), Sym(Fraction(1)))
         key = None
         if not x.is_numeric():
             key = (x.n.get_id() if not isinstance(x.n, Fraction) else x.n, tuple(sorted(x.d.items())))
             if key in self.cache:
-                return self.cache[key]
+                return self.cache[key][0]
         q = self._pi_multiple(x) if (x.is_numeric() or self.pi.is_numeric() or self._mentions_pi(x)) else None
         if q is not None:
             k = int(q * 2) % 4
@@ -72,7 +74,7 @@ class Trig:
                 self.classes.append((x, S, C))
                 res = ('atom', S, C)
         if key is not None:
-            self.cache[key] = res
+            self.cache[key] = (res, x)      # x is kept alive: z3 re-uses the ids of collected terms
         return res
 
     def _mentions_pi(self, x):
